@@ -101,6 +101,11 @@ pub fn eval(case: &Case) -> Verdict {
 
 fn offsets_for(r: &Row, seed: u64, idx: u64, small: bool) -> Vec<i32> {
     let mut v: Vec<i32> = if small { (-13..=13).collect() } else { (-40..=40).collect() };
+    if !small && r.d >= 29 {
+        // month ends: every offset within +-100 years (whole 4-year / 100-year cycles included)
+        v.extend(41..=1212);
+        v.extend(-1212..=-41);
+    }
     let to_first = -(12 * (r.y as i64 - 1) + (r.m as i64 - 1));
     let to_last = 12 * (9999 - r.y as i64) + (12 - r.m as i64);
     for k in [to_first, to_first - 1, to_first + 1, to_last, to_last + 1, to_last - 1, to_first - 12, to_last + 12] {
